@@ -20,6 +20,24 @@ fn main() {
     let tier = match arg_value(&args, "--tier").as_deref() { Some("thorough") => Tier::Thorough, _ => Tier::Quick };
     let seed: u64 = arg_value(&args, "--seed").or_else(|| std::env::var("VERIF_SEED").ok()).and_then(|s| s.trim().parse::<i128>().ok()).map(|v| v as u64).unwrap_or(1);
     match args[1].as_str() {
+        "probe" => {
+            // rwsv probe <docroot> <escaped request bytes> [legacy]: run one request in-process and print the response
+            let root = args.get(2).expect("docroot");
+            let req = fw::util::unescape_bytes(args.get(3).expect("request"));
+            let legacy = args.get(4).map(|s| s == "legacy").unwrap_or(false);
+            fw::install_panic_hook();
+            let h = std::thread::Builder::new().name("0".to_string()).spawn({ let root = root.clone(); move || {
+                fw::inproc::init_env();
+                std::env::set_current_dir(&root).expect("chdir");
+                let saved = fw::redirect_stdio_to_devnull();
+                let o = fw::inproc::serve(&req, Default::default(), 10000, fw::inproc::AppKind::Real, if legacy { fw::inproc::Entry::Legacy } else { fw::inproc::Entry::Process });
+                use std::io::Write;
+                let mut out = saved.unwrap();
+                writeln!(out, "result: {:?}", o.result).ok();
+                writeln!(out, "{}", fw::util::lossy(&o.out, 3000)).ok();
+            }}).unwrap();
+            h.join().ok();
+        }
         "list" => { for p in props::ALL { println!("{}", p); } }
         "run" => {
             let id = args.get(2).expect("property id").to_string();
